@@ -7,6 +7,7 @@ results, the `scale` flags, the guards of the two scaling loops, the finalise-on
 `Sim.summarize`.  The theorems whose name starts with `C15_table_` are obligations on that table.
 -/
 import StarsimModel.Lemmas.Results
+import StarsimModel.Lemmas.SimCore
 
 namespace StarsimModel.C15
 open StarsimModel.Results
@@ -451,5 +452,38 @@ example : errOf (runOps exSim [.toDf]) = some .notReady := by decide +kernel
 
 example : PlainScaled exSim.store "deaths_new" ∧ PlainScaled exSim.store "n_alive" :=
   ⟨⟨_, rfl, rfl, rfl⟩, ⟨_, rfl, rfl, rfl⟩⟩
+
+/-! ### Cumulative results over whole runs of the composed step model
+
+`SimCore` (Model/SimCore.lean) is one step of an SIR simulation in the phase order regenerated from `Loop.collect_funcs`;
+its rows follow the slicing conventions regenerated into `Gen.cumRows` (`SimCore.cum_conventions`); it is compared with real
+runs row by row on every check of C13. -/
+section composed
+
+/-- **Cumulative series, any events, any run length**: in every recorded row `cum_infections[t] = Σ_{u ≤ t} new_infections[u]`
+    and `cum_deaths[t] = Σ_{u < t} new_deaths[u]` (today's one-step lag of `cum_deaths`, following the source's `sum[:ti]`). -/
+theorem C15_composed_cumulative (s : SimCore.Sim) (evs : List SimCore.Events) (h : s.rows = []) :
+    ∀ (k : Nat) (r : SimCore.Row), (SimCore.run s evs).rows[k]? = some r →
+      r.cumInf = SimCore.sumNat (((SimCore.run s evs).rows.take (k + 1)).map (·.newInf)) ∧
+      r.cumDeaths = SimCore.sumNat (((SimCore.run s evs).rows.take k).map (·.newDeaths)) :=
+  SimCore.run_cum evs s (by rw [h]; exact SimCore.cumOK_nil)
+
+/-- the conventions the rows follow are the regenerated ones -/
+theorem C15_composed_conventions :
+    SimCore.cumInclusive "People" "cum_deaths" = some false ∧ SimCore.cumInclusive "Infection" "cum_infections" = some true :=
+  SimCore.cum_conventions
+
+/-- every recorded count is the count over the population at recording time (the row of a step, field by field) -/
+theorem C15_composed_row_is_count (s : SimCore.Sim) (ev : SimCore.Events) :
+    ∃ r : SimCore.Row, (SimCore.simStep s ev).rows = s.rows ++ [r] ∧
+      r.nAlive = SimCore.countActive (·.alive) (SimCore.midPop s ev) ∧
+      r.nS = SimCore.countActive (·.fl.susceptible) (SimCore.midPop s ev) ∧
+      r.nI = SimCore.countActive (·.fl.infected) (SimCore.midPop s ev) ∧
+      r.nR = SimCore.countActive (·.fl.recovered) (SimCore.midPop s ev) ∧
+      r.newDeaths = SimCore.countActive (fun a => SimCore.isNow a.pDead s.ti) (SimCore.midPop s ev) ∧
+      r.newInf = SimCore.countActive (fun a => SimCore.isNow a.tm.ti_infected s.ti) (SimCore.midPop s ev) := by
+  obtain ⟨r, h1, _, h3, h4, h5, h6, h7, _, h9, _⟩ := SimCore.simStep_rows s ev
+  exact ⟨r, h1, h3, h4, h5, h6, h7, h9⟩
+end composed
 
 end StarsimModel.C15
